@@ -270,16 +270,24 @@ class _:
         return L.ppm.PPM_ENCODER(arg, a["M"])
 
 
-@entry("PPM_DECODER", needs=("bits",))
+@entry("PPM_DECODER", needs=("bits", "arr"))
 class _:
-    gen = staticmethod(lambda r: {"M": r.choice([2, 4, 8])})
-    run = staticmethod(lambda L, a, i: L.ppm.PPM_DECODER(i["bits"], a["M"]))
+    gen = staticmethod(lambda r: {"M": r.choice([2, 4, 8]), "form": r.choice(["bs", "bs", "poolbool"])})
+
+    @staticmethod
+    def run(L, a, i):
+        arg = i["arr"] if a.get("form") == "poolbool" and i["arr"].dtype == bool else i["bits"]
+        return L.ppm.PPM_DECODER(arg, a["M"])
 
 
-@entry("HDD", needs=("bits",), flags=("stoch",))
+@entry("HDD", needs=("bits", "arr"), flags=("stoch",))
 class _:
-    gen = staticmethod(lambda r: {"M": r.choice([2, 4, 8])})
-    run = staticmethod(lambda L, a, i: L.ppm.HDD(i["bits"], a["M"]))
+    gen = staticmethod(lambda r: {"M": r.choice([2, 4, 8]), "form": r.choice(["bs", "bs", "poolbool"])})
+
+    @staticmethod
+    def run(L, a, i):
+        arg = i["arr"] if a.get("form") == "poolbool" and i["arr"].dtype == bool else i["bits"]
+        return L.ppm.HDD(arg, a["M"])
 
 
 @entry("SDD", needs=("E",))
